@@ -8,13 +8,13 @@ from vf.core import digest
 from vf.gen import gen_data
 from vf.spec import S, build, short
 
-SHARDS = {"quick": 8, "thorough": 16}
+SHARDS = {"quick": 16, "thorough": 16}
 WATCHDOG = {"quick": 1800, "thorough": 10800}
 CASES = {"quick": 130, "thorough": 1500}
 FLOORS = {
-    "quick": {"distinct_nontrivial": 150, "prefix_scores_compared": 15000, "cases[msl>1]": 400,
-              "cases_with_pruned_start": 300, "cases[user-cost]": 150, "cases[penalty=0]": 50,
-              "cases[int64 data]": 20},
+    "quick": {"distinct_nontrivial": 3300, "prefix_scores_compared": 46000, "cases[msl>1]": 730,
+              "cases_with_pruned_start": 1900, "cases[user-cost]": 260, "cases[penalty=0]": 100,
+              "cases[int64 data]": 56},
     "thorough": {"distinct_nontrivial": 3000, "prefix_scores_compared": 400000,
                  "exhaustive_ternary_runs": 100000},
 }
@@ -103,11 +103,15 @@ def make_recipe(rng, tier):
                                                           float(rng.choice([0.5, 1.0, 4.0]))]}), max(2, msl)
     elif k == "L1Cost":
         cost, user = S("L1Cost", param=None), True
+        if rng.random() < 0.4:  # declared multivariate (one output column), minimum size still 1
+            cost["kw"]["multivariate"] = True
     elif k == "ModeCost":
         cost, user = S("ModeCost", param=None), True
     else:
         cost, user = S("ClosureTableCost", seed=int(rng.integers(10 ** 6)), maxinc=int(rng.integers(1, 4)),
                        zero_prob=float(rng.choice([0.2, 0.5, 0.8]))), True
+        if rng.random() < 0.4:
+            cost["kw"]["multivariate"] = True
     nmax = 60 if tier == "quick" else (300 if rng.random() < 0.05 else 90)
     n = int(rng.integers(2 * msl, max(2 * msl + 1, nmax + 1)))
     if rng.random() < 0.07:
